@@ -185,6 +185,10 @@ def streams(ctx):
             series.append(c)
     ctx.run_cases(SERIES, "several-requests-through-one-api-object-on-one-connection", [gen_history(rng) for _ in range(ctx.n(150, 3000))], exhaustive=False,
                   sample_every=70)
+    # the same kind of history against a thermostat that takes 0.5 s .. 2 min over some replies (virtual loop clock): what is sent and
+    # what is reported must not depend on how long the device took
+    slow = [HH.with_slow_replies(rng, gen_history(rng)) for _ in range(ctx.n(60, 1200))]
+    ctx.run_cases(SERIES, "several-requests-and-a-thermostat-that-is-slow-to-answer-under-a-virtual-clock", slow, exhaustive=False, sample_every=30)
     ctx.run_cases(CTL, "series-of-requests-through-one-remote-object", series, exhaustive=False, sample_every=len(series) // 3)
 
 
